@@ -49,6 +49,7 @@ Proof.
   - destruct (linv_piece_written s i H) as [R|[R|(b & Eb & R)]]; [exact R| |]; cbn in Hl; destruct Hl as [L1 L2]; [congruence|].
     rewrite Eb in L2. congruence.
   - apply linv_mutate; exact H.
+  - destruct H as [A B C D F G I J K L M N]. destruct (bf s) eqn:Eb; [|constructor; rewrite ?Eb; assumption]. constructor; cbn; rewrite ?Eb; auto.
 Qed.
 
 Definition life_init (fx pk : list bool) (nf : Z) : life :=
